@@ -2,6 +2,9 @@
 import { mulberry32, held, violated, inconclusive, short, optLabel } from './lib.mjs';
 import { loadModule, traced } from '../runtime/evalhost.mjs';
 import { canon } from '../runtime/canon.mjs';
+import * as C18 from './C18.mjs';
+import * as C20 from './C20.mjs';
+import * as C16 from './C16.mjs';
 
 export const id = 'C06';
 
@@ -185,6 +188,14 @@ export function* generate({ tier, seed }) {
   for (const need of needs) for (const ctx of (NEEDS[need].reassign ? ['fnBody'] : innerCtxs)) for (let k = 0; k < nInner; k++) {
     const g = emit(need, ctx, 'none', 'none', [], 'module', [rng.pick(O)]); if (g) yield g;
   }
+  // 2c. typed modules: the resolveType path adds imports (mergeDefaults) and option keys; static monitors + module load only
+  const keepTyped = tier === 'quick' ? 0.15 : 0.3;
+  for (const [name, mod] of [['C18', C18], ['C20', C20], ['C16', C16]]) {
+    for (const g of mod.generate({ tier, seed })) {
+      if (rng() > keepTyped || g.spec.unresolvable) continue;
+      yield { gid: `C06-${n++}`, src: g.src, syntax: 'tsx', spec: { staticOnly: true, need: `typed:${name}`, env: { globals: { recordDC: { v: { k: 'fn', id: 'recordDC' }, log: false } }, modules: { other: { defineComponent: { k: 'fn', id: 'other.defineComponent' } }, './ext': { Ext: { k: 'sent' } } } } }, feature: `typed|${name}|${g.feature}`, variants: g.variants.slice(0, 1) };
+    }
+  }
   // 3. colliding user names
   const nColl = tier === 'quick' ? 8000 : 120000;
   for (let i = 0; i < nColl; i++) {
@@ -238,6 +249,7 @@ export async function check(group, records) {
         else out.push(violated({ ...base, oracle: 'module loads', sig: `C06/load-error/${error.name}/${/before initialization/.test(error.message) ? 'TDZ' : /not defined/.test(error.message) ? 'unbound' : 'other'}/${spec.need}`, detail: error }));
         continue;
       }
+      if (spec.staticOnly) { out.push(held({ ...base, events: { generated_bindings: (rec.scope || {}).gen_bindings || 0, generated_refs: (rec.scope || {}).gen_refs || 0, module_loaded: 1 } })); continue; }
       let bad = null;
       let slotCalls = 0;
       for (let round = 0; round < 2 && !bad; round++) {
